@@ -332,3 +332,81 @@ pub fn roundtrip(bytes: &[u8], cfg: &Cfg, gc_runs: u32) -> Rt {
     rt.module = Some(module);
     rt
 }
+
+/// A typed custom section that roots arbitrary entities for the GC pass (C06/C07 "custom-section roots").
+#[derive(Debug, Default)]
+pub struct RootsSection {
+    pub funcs: Vec<walrus::FunctionId>,
+    pub tables: Vec<walrus::TableId>,
+    pub memories: Vec<walrus::MemoryId>,
+    pub globals: Vec<walrus::GlobalId>,
+}
+impl CustomSection for RootsSection {
+    fn name(&self) -> &str {
+        "wv.roots"
+    }
+    fn data(&self, _: &IdsToIndices) -> Cow<[u8]> {
+        Cow::Borrowed(&[])
+    }
+    fn add_gc_roots(&self, roots: &mut walrus::passes::Roots) {
+        for f in &self.funcs {
+            roots.push_func(*f);
+        }
+        for t in &self.tables {
+            roots.push_table(*t);
+        }
+        for m in &self.memories {
+            roots.push_memory(*m);
+        }
+        for g in &self.globals {
+            roots.push_global(*g);
+        }
+    }
+}
+
+/// parse ; [root some entities through a custom section] ; gc x n ; emit
+/// `extra` lists (space, in-index) pairs to root.
+pub fn gc_roundtrip(bytes: &[u8], cfg: &Cfg, gc_runs: u32, extra: &[(String, u32)]) -> Rt {
+    let mut rt = Rt { outcome: String::new(), out: vec![], maps: Default::default(), emit: Default::default(), xform: Default::default(), sigma: Default::default(), module: None };
+    let parsed = match parse(bytes, cfg) {
+        Ok(p) => p,
+        Err(e) => {
+            rt.outcome = format!("parse-{}", e);
+            return rt;
+        }
+    };
+    let mut module = parsed.module;
+    rt.maps = parsed.maps;
+    if !extra.is_empty() {
+        let mut rs = RootsSection::default();
+        for (sp, i) in extra {
+            let i = *i as usize;
+            match sp.as_str() {
+                "func" => rs.funcs.extend(module.funcs.iter().map(|f| f.id()).filter(|id| Some(&(id.index() as i32)) == rt.maps.func.get(i))),
+                "table" => rs.tables.extend(module.tables.iter().map(|f| f.id()).filter(|id| Some(&(id.index() as i32)) == rt.maps.table.get(i))),
+                "memory" => rs.memories.extend(module.memories.iter().map(|f| f.id()).filter(|id| Some(&(id.index() as i32)) == rt.maps.memory.get(i))),
+                "global" => rs.globals.extend(module.globals.iter().map(|f| f.id()).filter(|id| Some(&(id.index() as i32)) == rt.maps.global.get(i))),
+                _ => {}
+            }
+        }
+        module.customs.add(rs);
+    }
+    for _ in 0..gc_runs {
+        if let Err(e) = gc(&mut module) {
+            rt.outcome = format!("gc-{}", e);
+            return rt;
+        }
+    }
+    match emit(&mut module, cfg.probe) {
+        Ok(e) => {
+            rt.out = e.bytes;
+            rt.emit = e.emit;
+            rt.xform = e.xform;
+            rt.sigma = sigma(&rt.maps, &rt.emit);
+            rt.outcome = "ok".into();
+        }
+        Err(e) => rt.outcome = format!("emit-{}", e),
+    }
+    rt.module = Some(module);
+    rt
+}
